@@ -331,12 +331,26 @@ func (x *Exec) doMakeInterface(fr *Frame, in *ssa.MakeInterface, reach *Term, st
 		r := x.newRef(st)
 		x.hp.store(st, &LVal{Root: RStruct, Ref: r, RootT: t, T: t}, v)
 		x.vc.assume(reach, mkEq(app(SInt, "dyntype", r), tid))
+		if cls := x.sp.OnBox[typeName(t)]; len(cls) > 0 {
+			for _, u := range x.sp.OnBoxUses[typeName(t)] {
+				x.vc.theories[u] = true
+			}
+			env := &Env{x: x, vars: map[string]*Sym{"self": {T: types.NewPointer(t), L: []*Term{r}}}, st: st, old: st}
+			for _, c := range cls {
+				x.vc.assume(reach, x.evalClause(env, c))
+			}
+			addUnique(&x.report.ContractUsed, "onbox "+typeName(t))
+		}
 		return scalar(in.Type(), r)
 	case KIface:
 		return scalar(in.Type(), v.term())
 	default:
 		if len(v.L) != 1 {
-			panic("boxing of aggregate " + typeName(t))
+			// aggregates (slices, arrays) are boxed into a fresh cell
+			r := x.newRef(st)
+			x.hp.store(st, &LVal{Root: RBox, Ref: r, RootT: t, T: t}, v)
+			x.vc.assume(reach, mkEq(app(SInt, "dyntype", r), tid))
+			return scalar(in.Type(), r)
 		}
 		box, _ := x.boxFn(v.L[0].Sort)
 		// one box function per sort; dynamic type is attached per boxed value and type
@@ -363,7 +377,7 @@ func (x *Exec) unboxAs(v *Term, t types.Type, st *State) *Sym {
 	default:
 		ls := leavesOf(t)
 		if len(ls) != 1 {
-			panic("unboxing aggregate " + typeName(t))
+			return x.hp.load(st, &LVal{Root: RBox, Ref: v, RootT: t, T: t})
 		}
 		tb := "box." + sanitize(typeName(t))
 		if !x.vc.declared[tb] {
